@@ -198,7 +198,7 @@ static void f_dump (void)
 {
 	int i, k, n = FN;
 	mpq_factor_work *f = F;
-	if (!f || !f->rperm) { printf ("FDUMP none\n"); return; }
+	if (!f || !f->rperm || !Fvalid) { printf ("FDUMP none\n"); return; }
 	printf ("FDUMP %d stage %d nstages %d etacnt %d dense_base %d drows %d dcols %d\n", n, f->stage, f->nstages, f->etacnt,
 					f->dense_base, f->drows, f->dcols);
 	fputs ("RPERM", stdout); for (i = 0; i < n; i++) printf (" %d", f->rperm[i]); putchar ('\n');
